@@ -440,6 +440,18 @@ def run_task(task):
             failed, cobs, outside, err = replay(values, eng.uf_table(model))
             eng.stats.witness_replays += 1
             cobs_j = eng.eval_obs(model, cobs) if cobs is not None else None
+            if failed and not outside and not err:
+                # the real code breaks a claim on the path's witness although the encoding satisfies it on the whole
+                # path (behaviour the encoding does not carry, e.g. numpy integer dtypes): the real code decides
+                ctx.violation = {"label": failed[0], "case": case, "canary": canary,
+                                 "inputs": {k: str(v) for k, v in values.items()},
+                                 "inputs_float": {k: float(v) for k, v in values.items()},
+                                 "detail": "claim fails in the concrete replay of the path witness on the real code; the "
+                                           "symbolic encoding of this path satisfies it (encoding gap)",
+                                 "found_by": "witness_replay", "replay_failed_labels": failed,
+                                 "replay_outside_assumptions": False, "replay_error": None,
+                                 "replay_obs": _jsonable(cobs_j), "reproduced": True}
+                raise StopCase()
             if outside or err or failed or not obs_equal(expected, cobs_j, rtol, getattr(H, "ATOL", 0.0)):
                 out["errors"].append({"kind": "encoding_mismatch", "case": case,
                                       "inputs": {k: str(v) for k, v in values.items()},
